@@ -512,9 +512,48 @@ static int run_c17(uint64_t seed) {
             }
         }
     }
+    // through the file layer: an object of every mapped code (a default-constructed one of every class among them), followed by a
+    // sentinel, written with File::write and read back with File::read: same class, same code, then the sentinel, then the end
+    long file_trips = 0;
+    {
+        const char * tmp = getenv("VERIF_TMP"); std::string path = std::string(tmp ? tmp : "/dev/shm") + "/c17." + std::to_string(getpid()) + ".blf";
+        struct Trip { std::string what; ObjectHeaderBase * o; uint32_t code; std::string cls; };
+        std::vector<Trip> trips;
+        for (int i = 0; i < vr::nclasses; i++) { ObjectHeaderBase * o = vr::classes[i].make(); trips.push_back({std::string("default ") + vr::classes[i].name, o, (uint32_t)o->objectType, vr::classes[i].name}); }
+        for (uint32_t c = 0; c < 256; c++) { ObjectHeaderBase * o = File::createObject((ObjectType)c); if (!o) continue; if (tname(o) == "LogContainer") { delete o; continue; } std::string cls = tname(o); o->objectType = (ObjectType)c; trips.push_back({"createObject(" + std::to_string(c) + ")", o, c, cls}); }
+        for (size_t t = 0; t < trips.size(); t++) {
+            Trip & tr = trips[t];
+            std::string key = "file:" + tr.cls + ":" + std::to_string(tr.code);
+            try {
+                {
+                    File f; f.open(path.c_str(), std::ios_base::out);
+                    if (!f.is_open()) { fprintf(stderr, "HARNESS: cannot write %s\n", path.c_str()); return 2; }
+                    f.write(tr.o); tr.o = nullptr;
+                    CanMessage * m = new CanMessage; m->id = 0x17170000u + (uint32_t)t; m->dlc = 8; f.write(m);
+                    f.close();
+                }
+                File f; f.open(path.c_str(), std::ios_base::in);
+                std::vector<std::string> got;
+                bool ok = true; int n = 0;
+                while (ObjectHeaderBase * o = f.read()) {
+                    got.push_back(tname(o) + "/" + std::to_string((uint32_t)o->objectType));
+                    if (n == 0 && (tname(o) != tr.cls || (uint32_t)o->objectType != tr.code)) ok = false;
+                    if (n == 1) { CanMessage * m = dynamic_cast<CanMessage *>(o); if (!m || m->id != 0x17170000u + (uint32_t)t) ok = false; }
+                    delete o; if (++n > 8) break;
+                }
+                f.close();
+                if (n != 2) ok = false;
+                file_trips++;
+                if (!ok) { std::string g; for (auto & x : got) g += x + " "; hc::viol(key + ":not-read-back-as-written", tr.what + ": wrote " + tr.cls + "/" + std::to_string(tr.code) + " CanMessage/1, read back: " + (g.empty() ? "nothing" : g)); }
+            } catch (std::exception & e) { hc::viol(key + ":exception", tr.what + ": " + e.what()); }
+            delete tr.o;
+        }
+        unlink(path.c_str());
+        samples.push_back(std::to_string(file_trips) + " File::write -> File::read round trips (every class default-constructed, every mapped code 0..255), each followed by a sentinel object");
+    }
     samples.push_back("each of " + std::to_string(vr::nclasses) + " classes constructed in memory pre-filled with 00/FF/A5/5A: e.g. " + std::string(vr::classes[r.below(vr::nclasses)].name) + " - every member and the encoding compared across the four");
     std::ostringstream so; so << "{\"codes\":" << codes << ",\"mapped\":" << mapped << ",\"nothing\":" << nothing << ",\"classes\":" << vr::nclasses << ",\"ctor_checks\":" << ctor
-       << ",\"poison_constructions\":" << poison << ",\"fields_compared\":" << fields_checked << ",\"samples\":[";
+       << ",\"poison_constructions\":" << poison << ",\"file_round_trips\":" << file_trips << ",\"fields_compared\":" << fields_checked << ",\"samples\":[";
     for (size_t i = 0; i < samples.size(); i++) so << (i ? "," : "") << hc::jstr(samples[i]);
     so << "]}";
     hc::stat(so.str());
